@@ -173,12 +173,12 @@ theorem RM_stable : Stable (RM w) := by
   exact ⟨mt, h1, hf.ext.modules _ _ h2⟩
 
 theorem moduleType_good : Good (Inv w ρ oi ow c) (moduleType w) (RM w) := by
-  intro st m st' id hP h
+  intro st m st' id h
   unfold moduleType at h
   split at h
   · rename_i id0 hl
     cases h
-    exact ⟨Frame.refl _, hP, hP.mod m _ hl⟩
+    exact ⟨Frame.refl _, fun hP => ⟨hP, hP.mod m _ hl⟩⟩
   · cases h
   · split at h
     · cases h
@@ -186,15 +186,11 @@ theorem moduleType_good : Good (Inv w ρ oi ow c) (moduleType w) (RM w) := by
       simp only at h
       cases h
       have hfr : Frame st (Decode.addModule st mt).1 := Frame.ofAddModule st mt
+      refine ⟨⟨hfr.ext, hfr.size, hfr.rmap⟩, fun hP => ?_⟩
       have hinv1 : Inv w ρ oi ow c (Decode.addModule st mt).1 := hP.step hfr rfl rfl
       have hrm : RM w (Decode.addModule st mt).1 m st.types.modules.length :=
         ⟨mt, hmt, by simp [Decode.addModule]⟩
-      exact ⟨⟨hfr.ext, hfr.size, hfr.rmap⟩, hinv1.insertMod m _ hrm, hrm⟩
-
-/-- `ρ` names, for every base resource of the resource map, the root resource it maps to -/
-def Cons (ρ : Nat → Res) (st : St) : Prop :=
-  ∀ b s, lookup st.resourceMap b = some s →
-    ∃ x, st.types.resources[s]? = some x ∧ ρ b = ⟨st.types.uid, s, x.name⟩
+      exact ⟨hinv1.insertMod m _ hrm, hrm⟩
 
 /-- `id` is the conversion of the validator's resource id `r` -/
 def RL (w : WTypes) (ρ : Nat → Res) (oi ow : List Nat) (st : St) (r id : Nat) : Prop :=
@@ -221,14 +217,14 @@ theorem resLeaf_alias {T' : Types} {id s : Nat} {y x : Resource} {a : ResourceAl
 
 /-- **`TypeConverter::resource` keeps the invariant** and returns an id that is, in every later
 arena, the leaf of its base resource (given that `ρ` agrees with the resource map afterwards). -/
-theorem resource_ok {st st' : St} {name : Str} {r id : Nat} (hP : Inv w ρ oi ow c st)
-    (h : resource w st name r = .ok (st', id)) (hcons : Cons ρ st') :
-    Frame st st' ∧ Inv w ρ oi ow c st' ∧ RL w ρ oi ow st' r id := by
+theorem resource_ok {st st' : St} {name : Str} {r id : Nat}
+    (h : resource w st name r = .ok (st', id)) :
+    Frame st st' ∧ (Inv w ρ oi ow c st → Cons ρ st' → Inv w ρ oi ow c st' ∧ RL w ρ oi ow st' r id) := by
   unfold resource at h
   split at h
   · rename_i id0 hl
     cases h
-    exact ⟨Frame.refl _, hP, hP.res r _ hl⟩
+    exact ⟨Frame.refl _, fun hP _ => ⟨hP, hP.res r _ hl⟩⟩
   · cases h
   · split at h
     · cases h
@@ -240,13 +236,12 @@ theorem resource_ok {st st' : St} {name : Str} {r id : Nat} (hP : Inv w ρ oi ow
         cases h
         generalize hx0 : ({ name := name, alias := some { owner := _, source := src } } : Resource) = x0 at *
         have hfr : Frame st (Decode.addResource st x0).1 := Frame.ofAddResource st x0
+        refine ⟨⟨hfr.ext, hfr.size, hfr.rmap⟩, fun hP hcons => ?_⟩
         have hinv1 : Inv w ρ oi ow c (Decode.addResource st x0).1 := hP.step hfr rfl rfl
         obtain ⟨root, hroot, hrootA⟩ := hP.rm _ _ hsrc
-        obtain ⟨xc, hxc, hρ⟩ := hcons e.base src hsrc
-        have hxc' : st.types.resources[src]? = some xc := by
-          have : (st.types.resources ++ [x0])[src]? = some xc := hxc
-          rwa [List.getElem?_append_left (getElem?_lt_of_some hroot)] at this
-        rw [hroot] at hxc'; cases hxc'
+        have hρ := hcons e.base src root hsrc (by
+          show (st.types.resources ++ [x0])[src]? = some root
+          rw [List.getElem?_append_left (getElem?_lt_of_some hroot)]; exact hroot)
         have hrl : RL w ρ oi ow (Decode.addResource st x0).1 r st.types.resources.length := by
           refine ⟨e, he, ?_⟩
           intro T' he'
@@ -263,14 +258,13 @@ theorem resource_ok {st st' : St} {name : Str} {r id : Nat} (hP : Inv w ρ oi ow
             simp only [Option.map_some, Option.some.injEq] at hya
             rw [resLeaf_alias hy hya' hya hx hxa', hρ, hxn, he'.uid]
             rfl
-        exact ⟨⟨hfr.ext, hfr.size, hfr.rmap⟩, hinv1.insertRes r _ hrl, hrl⟩
+        exact ⟨hinv1.insertRes r _ hrl, hrl⟩
       · -- a new base resource
         rename_i hnone
         simp only at h
         cases h
         let x0 : Resource := { name := name, alias := none }
         have hfr : Frame st (Decode.addResource st x0).1 := Frame.ofAddResource st x0
-        have hinv1 : Inv w ρ oi ow c (Decode.addResource st x0).1 := hP.step hfr rfl rfl
         let st1 : St := { (Decode.addResource st x0).1 with
           resourceMap := (e.base, st.types.resources.length) :: st.resourceMap }
         have hfr1 : Frame st st1 := by
@@ -281,6 +275,8 @@ theorem resource_ok {st st' : St} {name : Str} {r id : Nat} (hP : Inv w ρ oi ow
           split
           · rename_i heq; subst heq; rw [hnone] at hb; cases hb
           · exact hb
+        refine ⟨⟨hfr1.ext, hfr1.size, hfr1.rmap⟩, fun hP hcons => ?_⟩
+        have hinv1 : Inv w ρ oi ow c (Decode.addResource st x0).1 := hP.step hfr rfl rfl
         have hinv2 : Inv w ρ oi ow c st1 := by
           refine ⟨hinv1.hc, hinv1.defined, hinv1.func, hinv1.inst, hinv1.comp, hinv1.mod, hinv1.res, ?_⟩
           intro b s hb
@@ -290,20 +286,19 @@ theorem resource_ok {st st' : St} {name : Str} {r id : Nat} (hP : Inv w ρ oi ow
           · cases hb'
             exact ⟨x0, by simp [st1, Decode.addResource, x0], rfl⟩
           · exact hinv1.rm b s hb'
-        obtain ⟨xc, hxc, hρ⟩ := hcons e.base st.types.resources.length (by
+        have hρ := hcons e.base st.types.resources.length x0 (by
           show lookup ((e.base, st.types.resources.length) :: st.resourceMap) e.base = some _
-          rw [lookup_cons]; simp)
-        have hxc' : xc = x0 := by
-          have : (st.types.resources ++ [x0])[st.types.resources.length]? = some xc := hxc
-          simpa using this.symm
+          rw [lookup_cons]; simp) (by
+          show (st.types.resources ++ [x0])[st.types.resources.length]? = some x0
+          simp)
         have hrl : RL w ρ oi ow st1 r st.types.resources.length := by
           refine ⟨e, he, ?_⟩
           intro T' he'
           obtain ⟨y, hy, hyn, hya⟩ := he'.resources st.types.resources.length x0
             (by simp [st1, Decode.addResource])
           have hya' : y.alias = none := by simpa [x0] using hya
-          rw [resLeaf_root hy hya', hρ, hyn, hxc', he'.uid]
+          rw [resLeaf_root hy hya', hρ, hyn, he'.uid]
           rfl
-        exact ⟨⟨hfr1.ext, hfr1.size, hfr1.rmap⟩, hinv2.insertRes r _ hrl, hrl⟩
+        exact ⟨hinv2.insertRes r _ hrl, hrl⟩
 
 end Wac.Decode
